@@ -496,3 +496,40 @@ Section Sel.
   Lemma total_sum_at a : total a = sum_at a (map snd (argsort_desc a)) zero.
   Proof. unfold total. apply sumv_sum_at. intros v k Hin. apply argsort_entry in Hin. tauto. Qed.
 End Sel.
+
+(* ------------------------------------------------------------------ the IndexError branch: nothing can be selected *)
+Section SelErrors.
+  Variable T : Type.
+  Variable zero : T.
+  Variable add : T -> T -> T.
+  Variables leb ltb : T -> T -> bool.
+  Variable isnan : T -> bool.
+  Hypothesis leb_total : forall a b, leb a b = true \/ leb b a = true.
+  Hypothesis leb_trans : forall a b c, leb a b = true -> leb b c = true -> leb a c = true.
+  Hypothesis add_nonneg : forall a x, leb zero x = true -> leb a (add a x) = true.
+
+  (* nothing selected: the densest cell alone (added to zero) already exceeds the limit *)
+  Lemma nothing_selected a lim : all_nonneg T zero leb a ->
+    (selected T zero add leb a lim = [] <->
+     match argsort_desc T leb a with [] => True | x :: _ => leb (add zero (fst x)) lim = false end).
+  Proof.
+    intros H. rewrite (selected_eq T zero add leb leb_trans add_nonneg a lim H).
+    destruct (argsort_desc T leb a) as [|x l]; simpl; [tauto|].
+    destruct (leb (add zero (fst x)) lim); split; intros; try discriminate; auto.
+  Qed.
+
+  (* the head of the descending order is a cell of the array and at least as big as every cell *)
+  Lemma argsort_head_max a x l : argsort_desc T leb a = x :: l ->
+    (0 <= snd x < Z.of_nat (length a))%Z /\ fst x = pval T zero a (snd x) /\
+    forall k, (0 <= k < Z.of_nat (length a))%Z -> leb (pval T zero a k) (fst x) = true.
+  Proof.
+    intros E. destruct x as [v i].
+    destruct (argsort_entry T zero leb a v i) as [Hi Hv]; [rewrite E; left; reflexivity|].
+    split; [exact Hi|]. split; [exact Hv|]. intros k Hk.
+    pose proof (argsort_has T zero leb a k Hk) as Hin. rewrite E in Hin.
+    pose proof (argsort_sorted T leb leb_total leb_trans a) as S. rewrite E in S. inversion S; subst.
+    destruct Hin as [Eq|Hin].
+    - inversion Eq; subst. simpl. destruct (leb_total (pval T zero a k) (pval T zero a k)); assumption.
+    - rewrite Forall_forall in H2. apply (H2 _ Hin).
+  Qed.
+End SelErrors.
